@@ -506,15 +506,15 @@ func tsComparison(fn *ssa.Function, pred func(l, r ssa.Value, op token.Token) bo
 func R30() Rule {
 	return Rule{Name: "R30", Run: func(c *core.Ctx) {
 		allowed := map[string]string{
-			"applyMutations":       "the mutation applier",
-			"getOrCreateFamily":    "adds a family after a failed lookup",
-			"getOrCreateColumn":    "adds a column after a failed lookup",
-			"scrubRow":             "drops empty / unknown families",
-			"scrubFam":             "drops empty columns, sorts",
-			"filterRow":            "filters a private copy / the scan's own row",
-			"copyRow":              "builds a copy",
-			rpcRMW:                 "the read-modify-write loop",
-			"(*table).gc":          "garbage collection",
+			"applyMutations":          "the mutation applier",
+			"getOrCreateFamily":       "adds a family after a failed lookup",
+			"getOrCreateColumn":       "adds a column after a failed lookup",
+			"scrubRow":                "drops empty / unknown families",
+			"scrubFam":                "drops empty columns, sorts",
+			"filterRow":               "filters a private copy / the scan's own row",
+			"copyRow":                 "builds a copy",
+			rpcRMW:                    "the read-modify-write loop",
+			"(*table).gc":             "garbage collection",
 			"(*table).getOrCreateRow": "fresh row",
 		}
 		n := 0
